@@ -437,6 +437,11 @@ def strip_transparent(e):
         return e
     if e[0] == "call" and not isinstance(e[1], tuple) and e[1] in UNWRAPS and len(e[2]) >= 1:
         return ("field", ("variant", strip_transparent(e[2][0]), UNWRAPS[e[1]]), "0")
+    # the value of `x?` on the continuing path is the Ok / Some payload of x
+    if e[0] == "field" and e[2] == "0" and e[1][0] == "variant" and e[1][2] == "Continue" and e[1][1][0] == "call" \
+            and isinstance(e[1][1][1], str) and e[1][1][1].endswith("Try>::branch") and e[1][1][2]:
+        inner = strip_transparent(e[1][1][2][0])
+        return ("field", ("variant", inner, "Some" if "core::option::Option<" in e[1][1][1] else "Ok"), "0")
     if e[0] == "call" and not isinstance(e[1], tuple) and e[1] in TRANSPARENT_CALLS and len(e[2]) >= 1:
         return strip_transparent(e[2][0])
     return tuple(strip_transparent(x) if isinstance(x, tuple) else x for x in e)
